@@ -342,6 +342,14 @@ Proof.
     rewrite Eq, Ht, Ez. reflexivity.
 Qed.
 
+Lemma squares_mass_equiv : forall (d d' : scores) t t', NoDup (map fst d) -> NoDup (map fst d') ->
+  scores_equiv d d' -> t == t' -> squares_mass cand d t == squares_mass cand d' t'.
+Proof.
+  intros d d' t t' Hn Hn' He Ht. unfold Rules.squares_mass.
+  apply (scores_equiv_qsum cand ceqb ceqb_spec (fun q => (q / t) * (q / t)) (fun q => (q / t') * (q / t')));
+    try assumption. intros a a' Ha. rewrite Ha, Ht. reflexivity.
+Qed.
+
 Lemma scores_table_equiv : forall d d' : scores, NoDup (map fst d) -> NoDup (map fst d') ->
   scores_equiv d d' -> table_equiv d d'.
 Proof.
@@ -353,6 +361,7 @@ Definition brd_rest (p : profile) (prev : estate) (u : Q) : M cand (profile * es
   if Qle_bool u (1 / (Qnat (length (cands p)) - 1))
   then
     if Qeq_bool (total_wt cand (ballots p)) 0 then mfail EValue else
+    if Qeq_bool (squares_mass cand (escores prev) (total_wt cand (ballots p))) 0 then mfail EValue else
     do! dc := next_draw cand (CNpChoice (squares cand (escores prev) (total_wt cand (ballots p)))) in
     match dc with
     | DCand w => if memb w (map fst (escores prev)) then elect_one w [] p prev else mfail EScript
@@ -388,6 +397,10 @@ Proof.
   destruct (Qle_bool u (1 / (Qnat (length (cands p)) - 1))).
   - rewrite (Qeq_bool_comp _ (total_wt cand (ballots p')) 0 0 Ht (Qeq_refl 0)).
     destruct (Qeq_bool (total_wt cand (ballots p')) 0); [exact eq_refl|].
+    rewrite (Qeq_bool_comp _ (squares_mass cand (escores prev') (total_wt cand (ballots p'))) 0 0
+               (squares_mass_equiv _ _ _ _ Hn Hn' Hsc Ht) (Qeq_refl 0)).
+    destruct (Qeq_bool (squares_mass cand (escores prev') (total_wt cand (ballots p'))) 0);
+      [exact eq_refl|].
     apply (mbind_log eq).
     + apply next_draw_log; [|exact Hs]. cbn [AnonRules.call_equiv].
       apply scores_table_equiv.
